@@ -350,7 +350,7 @@ MinkFacts(c) ==
 
 (* ======================= trace validation ================================= *)
 (* Hull3_Trace.cfg: the ndjson file named by the environment variable         *)
-(* HULL3_TRACE holds records [id, pts, v, t, fails] written from what the     *)
+(* HULL3_TRACE holds records [id, pts, v, t (0-based)] written from what the  *)
 (* implementation returned (drive/hull.cpp); the TLA+ relation is evaluated   *)
 (* on each and printed; checks/C16.py compares it with the driver's verdict.  *)
 TraceRecs(dummy) == ndJsonDeserialize(IOEnv.HULL3_TRACE)
